@@ -3,11 +3,13 @@ Model: the C16 embedding (Model/Codec.v); the six PDU definitions are NOT writte
 every run by reflecting on the imported trxd_proto objects (field classes, len, p, bit-field bl/val, order, nested items;
 callbacks tabulated by probing).  Theorems: Props/C17.v (the hand-written side states the documented structure literally).
 Tie: Gen + correspondence of the real PDUvN.from_bytes/to_bytes with the extracted C16 model run on the Gen definitions."""
+import json
 import time
 
 from .. import common
 from .. import trxd_util as TU
 from . import codec_builder as cb
+from ..gen.trxd import gen_trxd
 
 # canonical numbering of field names (the hand-written Coq side states the same numbers); a name that is not listed
 # gets the next free number, which makes the Gen = spec obligation fail
@@ -256,6 +258,7 @@ def gen_text(defs, unknown, tab):
 
 
 def gen(ctx):
+    gen_trxd(ctx)        # Gen/TrxdConst.v: the message codec's constants (Model/Trxd.v, used by c17_accepts_msg_codec_*)
     defs, unknown = reflect_all()
     tab = name_table(defs)
     ctx.gen("TrxdProto", gen_text(defs, unknown, tab))
@@ -487,7 +490,7 @@ def run(ctx):
             msgs.append(dict(kind="rx", ver=1, fn=2715647, tn=7, rssi=-120, toa=32767, nope=False, mod=i, tset=ts, tsc=5, ci=-1280,
                              burst=[-127 + (k % 255) for k in range(TU.MOD_BL[i])]))
     msgs.append(dict(kind="rx", ver=1, fn=0, tn=0, rssi=-47, toa=-32768, nope=True, mod=None, tset=None, tsc=None, ci=1280, burst=None))
-    for _ in range(150 if quick else 6000):
+    for _ in range(700 if quick else 12000):
         msgs.append(TU.rand_rx(rng) if rng.chance(2, 3) else TU.rand_tx(rng))
     for m in msgs:
         for legacy in (False, True):
@@ -500,7 +503,7 @@ def run(ctx):
             if rng.chance(1, 4):     # the other direction's / version's definition must reject or mis-accept consistently with the model
                 add_dec(rng.choice(PDUS), b, "msg-codec-other-def")
     # (2) typed PDUs: all six classes, v2 with 0..8 batched sub-PDUs
-    reps = 6 if quick else 150
+    reps = 25 if quick else 400
     for _ in range(reps):
         for name in ("PDUv0Rx", "PDUv0Tx", "PDUv1Rx", "PDUv1Tx"):
             add_enc(name, g_v01(rng, name), "typed")
@@ -511,7 +514,9 @@ def run(ctx):
     for c in list(cases):
         if c["op"] == "enc" and rng.chance(1, 6):
             d = dict(c["d"])
-            k = rng.choice([k for k in d if k not in ("bpdu",)])
+            # 'nope' is left alone: get_pres is tabulated over the value domain of its 1-bit key field (0/1); the real
+            # `not v['nope']` also answers for other integers, which the reflected table does not claim
+            k = rng.choice([k for k in d if k not in ("bpdu", "nope")])
             if rng.chance(1, 2) or not isinstance(d[k], int):
                 del d[k]
                 add_enc(c["name"], d, "enc-missing")
@@ -543,7 +548,7 @@ def run(ctx):
                 if c["name"] == "PDUv2Tx":
                     for k in (5, 6, 7):
                         bb[k] = rng.below(256)
-            add_dec(c["name"], bytes(bb), "reserved-set", exp=c["d"], main_only=True)
+            add_dec(c["name"], bytes(bb), "reserved-set", orig=b)
         elif r == 5 and c["name"].startswith("PDUv2") and c.get("nsub"):
             # reserved bits of the first batched sub-PDU: RFU(5) of its first octet, Tx spare octets
             off = len(layout(c["name"], dict(c["d"], bpdu=[])))
@@ -552,9 +557,9 @@ def run(ctx):
             if c["name"] == "PDUv2Tx":
                 for k in (5, 6, 7):
                     bb[off + k] = rng.below(256)
-            add_dec(c["name"], bytes(bb), "reserved-set-sub", exp=c["d"])
+            add_dec(c["name"], bytes(bb), "reserved-set-sub", orig=b)
     # (3) junk
-    for _ in range(60 if quick else 3000):
+    for _ in range(400 if quick else 6000):
         name = rng.choice(PDUS)
         n = rng.choice([0, 1, 2, 5, 6, 8, 11, 12, 13, 154, 156, 159, 160, 456, 460])
         add_dec(name, bytes(rng.below(256) for _ in range(n)), "junk", chk=rng.chance(3, 4))
@@ -587,6 +592,12 @@ def run(ctx):
     ctx.in_flight = None
     if res is None:
         return
+    nmis = 0
+    for c, m_out, o in res:
+        if m_out != o:
+            nmis += 1
+            if nmis <= 3:
+                ctx.note("model/implementation mismatch: %s model=%r impl=%r" % (json.dumps(show(c), default=str)[:400], (m_out or [])[:12], o[:12]))
     capped = {}
 
     def fail(key, what, c, expected=None, observed=None, cap=3):
@@ -619,7 +630,10 @@ def run(ctx):
         d = c["dict"]
         tag = c["tag"]
         if tag == "typed-encoding":
-            if st != 0 or not same(d, c["exp"]) or o[2] != len(c["data"]):
+            if st == 1 and c["name"] == "PDUv0Rx" and len(c["exp"]["soft-bits"]) == 148 and len(c["exp"]["pad"]) == 2:
+                fail("c17-v0rx-legacy-gmsk-rejected", "PDUv0Rx does not decode its own encoding of 148 soft bits + 2 padding octets "
+                     "(soft-bit length rule answers 444 for 150 octets: Short read)", c, expected="accepted", observed=o)
+            elif st != 0 or not same(d, c["exp"]) or o[2] != len(c["data"]):
                 fail("c17-roundtrip", "decode(encode(fields)) differs from fields / is not length-exact", c, observed=o[:12])
             else:
                 if "nope" in d:
@@ -631,7 +645,9 @@ def run(ctx):
                         if x["nope"] == 0 and len(x[bk]) != BURST_LEN.get(x["mod"]):
                             fail("c17-burst-len", "burst length is not the table entry of the MOD bits", c)
         elif tag in ("reserved-set", "reserved-set-sub"):
-            if st != 0 or not same(d, c["exp"]):
+            o_orig, _ = real_decode(c["name"], c["orig"], tab, c["chk"])
+            ctx.evaluations += 1
+            if o != o_orig:
                 fail("c17-reserved-ignored", "reserved bits / spare octets set on receipt changed the decoded message", c, observed=o[:12])
         elif tag == "wrong-version":
             if o != [1, 0]:
